@@ -140,10 +140,17 @@ Proof.
     eapply Z.le_trans; [apply (Hnear two52)|].
     assert (P0 : 0 < 2 ^ (e' + 1074)) by (apply pow2_pos; lia).
     assert (Hlt : Zpos m' * 2 ^ (e' + 1074) < two52 * 2 ^ (e0 + 1074)).
-    { replace (e0 + 1074) with ((e0 - e' - 1) + 1 + (e' + 1074)) by lia.
-      rewrite !Z.pow_add_r by lia.
-      assert (1 <= 2 ^ (e0 - e' - 1)) by (pose proof (pow2_pos (e0 - e' - 1) ltac:(lia)); lia).
-      unfold two52, two53 in *. nia. }
+    { replace (e0 + 1074) with ((e0 - e' - 1) + (1 + (e' + 1074))) by lia.
+      rewrite (Z.pow_add_r 2 (e0 - e' - 1) (1 + (e' + 1074))) by lia.
+      rewrite (Z.pow_add_r 2 1 (e' + 1074)) by lia. change (2 ^ 1) with 2.
+      assert (HT : 1 <= 2 ^ (e0 - e' - 1)) by (pose proof (pow2_pos (e0 - e' - 1) ltac:(lia)); lia).
+      set (P := 2 ^ (e' + 1074)) in *. set (T := 2 ^ (e0 - e' - 1)) in *.
+      assert (H1 : Zpos m' * P < two53 * P) by (apply Z.mul_lt_mono_pos_r; lia).
+      assert (H2 : 1 * (2 * P) <= T * (2 * P)) by (apply Z.mul_le_mono_nonneg_r; lia).
+      replace (two52 * (T * (2 * P))) with (two52 * (T * (2 * P))) by ring.
+      assert (H3 : two52 * (1 * (2 * P)) <= two52 * (T * (2 * P)))
+        by (apply Z.mul_le_mono_nonneg_l; [unfold two52; lia|exact H2]).
+      unfold two52, two53 in *. lia. }
     assert (Zpos m' * 2 ^ (e' + 1074) * den < two52 * 2 ^ (e0 + 1074) * den)
       by (apply Z.mul_lt_mono_pos_r; lia).
     lia.
